@@ -796,7 +796,9 @@ struct SeqRun
         ++st.calls;
         ++s_calls_step;
         if (g_seq_call_hook)
-            g_seq_call_hook(tr.policy == Policy::rr && !isLive && (op.allow & ALLOW_INSERT) && o0.size == (int64_t)cfg.capacity ? "rr_evict" : "");
+            g_seq_call_hook(tr.policy == Policy::rr && !isLive && (op.allow & ALLOW_INSERT) && o0.size == (int64_t)cfg.capacity
+                                ? "rr_evict"
+                                : single_noeffect(OpKind::insert, k, op.allow, false) ? "noeffect" : "");
         bool res = S->insert(k, op.val, op.allow, op.ttl_ms);
         if (g_seq_call_hook)
             g_seq_call_hook("");
@@ -1066,7 +1068,11 @@ struct SeqRun
         const bool peek   = op.peek && (tr.has_peek);
         ++st.calls;
         ++s_calls_step;
+        if (g_seq_call_hook)
+            g_seq_call_hook(single_noeffect(with_count ? OpKind::find_uc : OpKind::find, k, 0, op.peek) ? "noeffect" : "");
         Found f = with_count ? S->find_uc(k, op.peek) : S->find(k, op.peek);
+        if (g_seq_call_hook)
+            g_seq_call_hook("");
         note({f.hit, f.val, (int64_t)f.count});
         mirror_D(op, with_count ? Result{f.hit, f.val, (int64_t)f.count} : Result{f.hit, f.val});
         eval("C01");
@@ -1141,7 +1147,11 @@ struct SeqRun
         const int64_t z0   = is_ttl() ? o0.size - (int64_t)live.size() : 0;
         ++st.calls;
         ++s_calls_step;
+        if (g_seq_call_hook)
+            g_seq_call_hook(!isLive ? "noeffect" : "");
         bool res = S->erase(k);
+        if (g_seq_call_hook)
+            g_seq_call_hook("");
         note({res});
         mirror_D(op, {res});
         if (isLive)
@@ -1619,6 +1629,22 @@ struct SeqRun
                     std::vector<const char*> pr = {"C18"};
                     if (op.kind == OpKind::insert_range)
                         pr.push_back("C09");
+                    // a range lookup that reports something else than the verified single lookups reports a wrong
+                    // value or a wrong presence: C01's statement covers find_range / find_range_fill by name
+                    if (op.kind == OpKind::find_range || op.kind == OpKind::find_fill)
+                        pr.push_back("C01");
+                    // ut_map / ut_set: a range call that treats an expired key differently from the single calls did
+                    // not purge at its start
+                    if (tr.purge_every_call)
+                        for (auto& sgl : singles)
+                        {
+                            auto g = gone.find(sgl.key);
+                            if (!live.count(sgl.key) && g != gone.end() && g->second == Gone::expired)
+                            {
+                                pr.push_back("C17");
+                                break;
+                            }
+                        }
                     if (fail(pr, "range.result",
                              std::string(op_name(op.kind)) + " returned " + result_str(rr) +
                                  " but the same single operations in order return " + result_str(cat), true))
